@@ -156,7 +156,7 @@ def atomMatch (a : Atom) (subj : Bytes) (flg : Nat) (pos : Nat) : AR :=
           | some false => AR.fail
     | AK.beg =>
       if pos == 0 then (if hasFlag flg REG_NOTBOL then AR.fail else AR.ok pos)
-      else if subj.getD (pos - 1) 0 == 10 then (if nl then AR.ok pos else AR.fail)
+      else if subj.getD (pos - 1) 0 == 10 && cur != 0 then (if nl then AR.ok pos else AR.fail)
       else AR.fail
     | AK.end_ =>
       if cur == 0 then (if hasFlag flg REG_NOTEOL then AR.fail else AR.ok pos)
